@@ -57,6 +57,7 @@ type Unit struct {
 	lemmaAx   map[string]bool
 	oblLines  map[int]bool // script lines that assume an earlier obligation's goal
 	assumedAt map[string]int
+	constErrs []string
 }
 
 type allocSite struct {
